@@ -106,6 +106,85 @@ theorem csvdump_disk_is_model_files (ver : UInt8) (start last : Nat) (bs : List 
   | 2, _ => rw [c2]; simp [Run.csvFiles, Function.comp_def, List.flatMap_map]
   | 3, _ => rw [c3]; simp [Run.csvFiles, Function.comp_def, List.flatMap_map]
 
+/-- **whole-program model, every input.**  Whatever the options, key, index content and blk files are: if the run's exit
+    status is not 0 — unknown coin, index that does not load, no blk file, unreadable or rejected block at any height, a panic
+    in the parser or in a callback — it produced NO final-named file; and a rejected option pair produces none either -/
+theorem nonzero_exit_no_final_files (o : Run.Opts) (key : Option W.Bytes) (kvs : List (W.Bytes × W.Bytes)) (files : List Run.BlkFile) :
+    ((Run.run o key kvs files).exit ≠ 0 → (Run.run o key kvs files).files = []) ∧
+    ((Run.main o key kvs files).exit ≠ 0 → (Run.main o key kvs files).files = []) := by
+  have hrun : (Run.run o key kvs files).exit ≠ 0 → (Run.run o key kvs files).files = [] := by
+    unfold Run.run
+    repeat' split
+    all_goals (try dsimp only)
+    all_goals (repeat' split)
+    all_goals (try dsimp only)
+    all_goals (repeat' split)
+    all_goals (try dsimp only)
+    all_goals (repeat' split)
+    all_goals (intro h; first | rfl | exact absurd rfl h)
+  refine ⟨hrun, ?_⟩
+  unfold Run.main
+  split
+  · intro _; rfl
+  · exact hrun
+
+/-- **exit status 0 means complete output, for every input.**  Whatever the directory holds: if csvdump's run exits 0, its
+    four files are exactly the rows of ALL the blocks that were delivered to the callback (`Run.deliveredBlocks`), named with
+    the start height and the last delivered height — never a prefix of them -/
+theorem exit0_files_are_all_delivered_rows (o : Run.Opts) (key : Option W.Bytes) (kvs : List (W.Bytes × W.Bytes)) (files : List Run.BlkFile)
+    (coin : Run.Coin) (hcoin : Run.coinOf o.coin = some coin) (hcb : o.callback = "csvdump")
+    (h0 : (Run.run o key kvs files).exit = 0) :
+    (Run.run o key kvs files).files =
+      Run.csvFiles coin.version o.start (o.start + (Run.deliveredBlocks o key kvs files).length - 1) (Run.deliveredBlocks o key kvs files) ∧
+    (Run.run o key kvs files).delivered = (Run.deliveredBlocks o key kvs files).map (·.height) := by
+  revert h0
+  unfold Run.run Run.deliveredBlocks
+  simp only [hcoin]
+  cases hl : Run.loadIndex o kvs with
+  | err m => intro h; cases h
+  | panic m => intro h; cases h
+  | ok ld =>
+    dsimp only
+    split
+    · intro h; cases h
+    · split
+      · intro h; cases h
+      · split
+        · intro h; cases h
+        · intro h; cases h
+        · split
+          · intro h; cases h
+          · intro _
+            simp [Run.callbackOut, hcb]
+
+/-- the same for every callback: on exit status 0 the files and the standard output are the callback's result over ALL delivered
+    blocks (unspent dump and balances: header + one row per binding of the UTXO fold; opreturn: its lines; simplestats: its report) -/
+theorem exit0_output_is_callback_over_delivered (o : Run.Opts) (key : Option W.Bytes) (kvs : List (W.Bytes × W.Bytes)) (files : List Run.BlkFile)
+    (coin : Run.Coin) (hcoin : Run.coinOf o.coin = some coin) (h0 : (Run.run o key kvs files).exit = 0) :
+    (Run.run o key kvs files).files =
+      (Run.callbackOut o coin.version (o.start + (Run.deliveredBlocks o key kvs files).length - 1) (Run.deliveredBlocks o key kvs files)).1 ∧
+    (Run.run o key kvs files).stdout =
+      (Run.callbackOut o coin.version (o.start + (Run.deliveredBlocks o key kvs files).length - 1) (Run.deliveredBlocks o key kvs files)).2 := by
+  revert h0
+  unfold Run.run Run.deliveredBlocks
+  simp only [hcoin]
+  cases hl : Run.loadIndex o kvs with
+  | err m => intro h; cases h
+  | panic m => intro h; cases h
+  | ok ld =>
+    dsimp only
+    split
+    · intro h; cases h
+    · split
+      · intro h; cases h
+      · split
+        · intro h; cases h
+        · intro h; cases h
+        · split
+          · intro h; cases h
+          · intro _
+            exact ⟨rfl, rfl⟩
+
 /-- non-vacuity: two files, the second one's final flush fails: nothing is renamed, not even the first file -/
 example : (ON.exec (ON.init 10 (fun i => if i = 0 then 100 else 2)) (ON.prog 2 [(0, bytes 3), (1, bytes 3)])).ok = false ∧
     (ON.exec (ON.init 10 (fun i => if i = 0 then 100 else 2)) (ON.prog 2 [(0, bytes 3), (1, bytes 3)])).renamed 0 = false := by decide
